@@ -255,6 +255,17 @@ func (fr *Frame) contractCall(st *State, c *ast.CallExpr, fn *types.Func, ct *Co
 		// caller claims no-panic but callee does not: record
 		x.u.notes = append(x.u.notes, "callee "+key+" carries no nopanic clause")
 	}
+	results := fr.sigResults(sig, fn.Name())
+	for i, r := range results {
+		if i < len(ct.Results) {
+			names[ct.Results[i].Name] = r
+		}
+	}
+	// dry run of the post-conditions: registers every heap key they mention (ghost channel
+	// counters, library state) so that the havoc below covers them
+	for _, e := range ct.Ensures {
+		fr.evalClause(env, e)
+	}
 	// havoc what the callee may modify
 	for _, m := range ct.Modifies {
 		if m == "*" {
@@ -277,11 +288,7 @@ func (fr *Frame) contractCall(st *State, c *ast.CallExpr, fn *types.Func, ct *Co
 	nn := x.u.fresh("next", "Int")
 	x.u.fact("(>= " + nn + " " + st.next + ")")
 	st.next = nn
-	results := fr.sigResults(sig, fn.Name())
-	for i, r := range results {
-		if i < len(ct.Results) {
-			names[ct.Results[i].Name] = r
-		}
+	for _, r := range results {
 		x.emitTypeFact(st, r)
 	}
 	env.st = st
@@ -517,8 +524,7 @@ func (fr *Frame) builtin(st *State, c *ast.CallExpr, name string) []Val {
 			return []Val{{T: r, S: "Int", Ty: t}}
 		case *types.Chan:
 			r := x.alloc(st, "chan")
-			x.u.regHeap("chan.nsent", "(Array Int Int)")
-			x.heapStore(st, "chan.nsent", r, "0")
+			x.heapStore(st, x.nsentKey(x.u.sortOf(tt.Elem())), r, "0")
 			if len(c.Args) > 1 {
 				capv := fr.expr(st, c.Args[1])
 				x.u.regHeap("chan.cap", "(Array Int Int)")
